@@ -18,6 +18,11 @@ Streams
       string arrays (core.atoms_from_json builds object arrays).  Self carries short values, other long ones, on
       atoms and on every term kind, always with a non-empty identity map, default / zero / extend_types offsets: the
       adopted and appended values must arrive verbatim, not cut to the width of self's column;
+  (Z) zero-atom structures as self and / or as other, in every way the public API produces them: `Atoms()`,
+      `Atoms(cell=...)`, the constructor given type tables / coefficient tables / extra-column labels but no atoms,
+      and a structure whose atoms were all deleted (tables kept); default and explicit zero offsets, empty identity map
+      (no binding is valid).  Extending an empty structure must give exactly other (plus self's cell and tables),
+      extending by an empty one must change no atom and no term;
   (K) known finding, reproduced on every run: default-offset extends in which exactly ONE kind breaks the
       compatibility clause of the Lean theorem `extend_resolves` (self uses ids of that kind beyond its own coefficient
       table - no table, or a short one - while other brings a table; or self has atom types but no pair-coefficient
@@ -43,7 +48,8 @@ RULE = ("pairs (self, other) of random consistent Atoms (1..3 atoms quick / 1..4
         "offsets default, explicit zero, or those returned by extend_types; override stream with forward / reversed / "
         "permuted listings, duplicate and palindromic terms; twice-extension with shared offsets; larger fragments "
         "(9..16 atoms, all but 2..4 mapped, unmapped indices both below and above 8, terms on the unmapped atoms); "
-        "extra fields as fixed-width numpy string arrays with short values in self and long ones in other. Text resolution of new ids is "
+        "extra fields as fixed-width numpy string arrays with short values in self and long ones in other; zero-atom "
+        "structures (Atoms(), Atoms(cell), constructor with tables only, all atoms deleted) as self and as other. Text resolution of new ids is "
         "demanded everywhere; where self uses ids beyond its own coefficient table (or has no pair table) while other "
         "brings one, the failure is attributed to the known finding coefficient-table-misaligned (a dedicated stream "
         "reproduces it on every run for one kind at a time), every other failure is reported untagged. Non-trivial = distinct input in which other "
@@ -200,12 +206,56 @@ def _as_string_arrays(at):
     return at
 
 
-def _extend(aj, bj, offsets, mp, strfields=False):
+def _ctor_empty(t):
+    """an atom-less structure straight from the constructor, given whatever tables / labels / cell the template has"""
+    from mofun import Atoms
+    kw = {}
+    if t.get("cell") is not None:
+        kw["cell"] = [[float(core.unq(v)) for v in row] for row in t["cell"]]
+    ty = t["types"]
+    if ty["elem"]:
+        kw.update(atom_type_elements=list(ty["elem"]), atom_type_labels=list(ty["label"]),
+                  atom_type_masses=[float(core.unq(m)) for m in ty["mass"]])
+    if ty["pair"]:
+        kw["pair_coeffs"] = list(ty["pair"])
+    for k in KINDS:
+        if ty[k]:
+            kw["%s_type_coeffs" % k] = list(ty[k])
+        if t["xlabels"][k]:
+            kw["extra_%s_labels" % k] = list(t["xlabels"][k])
+    if t["xlabels"]["atom"]:
+        kw["extra_atom_labels"] = list(t["xlabels"]["atom"])
+    return Atoms(**kw)
+
+
+def _build(aj, spec=None):
+    """the real object for a dump.  spec = None: from the dump itself; {'kind': 'emptied', 'from': full dump}: build the
+    full structure and delete every atom; {'kind': 'ctor', 'from': template}: atom-less straight from the constructor"""
+    if not spec:
+        return core.atoms_from_json(aj)
+    if spec["kind"] == "emptied":
+        a = core.atoms_from_json(spec["from"])
+        del a[list(range(len(spec["from"]["atoms"])))]
+        return a
+    return _ctor_empty(spec["from"])
+
+
+def materialise(inp):
+    """for inputs that name HOW a structure is built: (re)compute its dump on the current tree"""
+    for key in ("a", "b"):
+        spec = inp.get(key + "_build")
+        if spec:
+            with core.quiet():
+                inp[key] = core.canon_atoms(_build(None, spec))
+    return inp
+
+
+def _extend(aj, bj, offsets, mp, strfields=False, a_build=None, b_build=None):
     side = {}
 
     def f():
-        a = core.atoms_from_json(aj)
-        b = core.atoms_from_json(bj)
+        a = _build(aj, a_build)
+        b = _build(bj, b_build)
         if strfields:
             _as_string_arrays(a)
             _as_string_arrays(b)
@@ -498,7 +548,8 @@ def supersedes(inp):
 
 def check_extend(ctx, stream, inp):
     """run one extend on the real code, apply the oracle; returns the implementation result for the tie"""
-    r, side = _extend(inp["a"], inp["b"], inp["offsets"], inp["map"], bool(inp.get("strfields")))
+    r, side = _extend(inp["a"], inp["b"], inp["offsets"], inp["map"], bool(inp.get("strfields")),
+                      inp.get("a_build"), inp.get("b_build"))
     bad, known = judge(inp, r, side)
     has_terms = any(inp["b"]["terms"][k] for k in KINDS)
     sup = supersedes(inp)
@@ -590,6 +641,47 @@ def known_cases(ctx):
     return [MISALIGN_VARIANTS[(start + i) % len(MISALIGN_VARIANTS)] for i in range(n)]
 
 
+EMPTY_KINDS = ["bare", "cell", "ctor-tables", "emptied"]
+
+
+def empty_structure(rng, kind):
+    """-> (build spec) of a zero-atom structure of the given kind"""
+    full = gen.rand_atoms(rng, n=rng.randint(1, 4), kinds=None, coeffs=True, pair=True,
+                          extras=rng.random() < 0.5, cell=(kind != "bare") and rng.random() < 0.7)
+    full = _norm(full)
+    if kind == "emptied":
+        return {"kind": "emptied", "from": full}
+    t = {"cell": full["cell"] if kind != "bare" else None, "atoms": [],
+         "terms": {k: [] for k in KINDS},
+         "types": dict(full["types"]) if kind == "ctor-tables" else {"elem": [], "label": [], "mass": [], "pair": [], **{k: [] for k in KINDS}},
+         "xlabels": dict(full["xlabels"]) if kind == "ctor-tables" else {"atom": [], **{k: [] for k in KINDS}}}
+    if kind == "cell" and t["cell"] is None:
+        t["cell"] = gen.rand_cell(rng, "ortho")[0]
+    return {"kind": "ctor", "from": t}
+
+
+def zero_atom_cases(ctx):
+    """self empty / other empty / both, every kind of empty structure, default and zero offsets"""
+    rng = ctx.rng
+    out = []
+    n = ctx.n(24, 160)
+    for s in range(n):
+        role = ["self", "other", "self", "both"][s % 4]
+        ka = EMPTY_KINDS[(s // 4) % 4]
+        kb = EMPTY_KINDS[(s // 4 + 1 + s % 3) % 4]
+        inp = {"op": "extend", "offsets": None if s % 3 else [0, 0, 0, 0, 0], "map": []}
+        if role in ("self", "both"):
+            inp["a_build"] = empty_structure(rng, ka)
+        else:
+            inp["a"] = _norm(gen.rand_atoms(rng, n=rng.randint(1, 5), coeffs=True, pair=True, cell=rng.random() < 0.3))
+        if role in ("other", "both"):
+            inp["b_build"] = empty_structure(rng, kb)
+        else:
+            inp["b"] = _norm(gen.rand_atoms(rng, n=rng.randint(1, 5), coeffs=True, pair=True, cell=False))
+        out.append(("Z:%s:%s" % (role, ka if role != "other" else kb), materialise(inp)))
+    return out
+
+
 def twice_cases(ctx):
     rng = ctx.rng
     out = []
@@ -637,7 +729,12 @@ def run(ctx, oracle_only=False):
     ops, impls = [], []
     for stream, inp in cases(ctx):
         r = check_extend(ctx, stream, inp)
-        ops.append({k: v for k, v in inp.items() if k not in ("via", "a0", "strfields")})
+        ops.append({k: v for k, v in inp.items() if k not in ("via", "a0", "strfields", "a_build", "b_build")})
+        impls.append(r)
+    # (Z) zero-atom structures
+    for stream, inp in zero_atom_cases(ctx):
+        r = check_extend(ctx, stream, inp)
+        ops.append({k: v for k, v in inp.items() if k not in ("a_build", "b_build")})
         impls.append(r)
     # (K) the known finding, one kind at a time
     for k, how in known_cases(ctx):
@@ -733,6 +830,8 @@ def replay(ctx, rec):
             return False
         r2, _ = _extend(r1["ok"], b, et["offsets"], [])
         return oracle_twice(a, b, et["offsets"], r1, r2) is None
-    r, side = _extend(inp["a"], inp["b"], inp["offsets"], inp["map"], bool(inp.get("strfields")))
+    materialise(inp)
+    r, side = _extend(inp["a"], inp["b"], inp["offsets"], inp["map"], bool(inp.get("strfields")),
+                      inp.get("a_build"), inp.get("b_build"))
     bad, known = judge(inp, r, side)
     return bad is None and known is None
